@@ -11,7 +11,21 @@ var kTable = []int{4, 0, 1, 2, 3, 5, 7, 8, 16, 33, 64, 128, 512, 1000, 4096}
 
 // drawAllocator draws an allocator shape: C>=1 (C=0 is C20's subject),
 // 0<=L<=K.
+// hugeKs are the capacities (in frames) of the rare "huge" shapes: buffers of
+// 64 Ki .. 1 Mi samples, where size-dependent paths of a modified library
+// (parallel clearing, chunked copies, packed shape keys) begin.
+var hugeKs = []int{65536, 65537, 1 << 17, 1 << 20}
+
 func drawAllocator(prog *simrt.Stream, b Bounds) signal.Allocator {
+	if prog.Draw(b.HugeOneIn) == b.HugeOneIn-1 {
+		c := 1 + prog.Draw(2)
+		k := hugeKs[prog.Draw(len(hugeKs))] / c
+		if c == 2 && prog.Draw(2) == 1 {
+			k = 65536
+		}
+		l := []int{0, 1, k}[prog.Draw(3)]
+		return signal.Allocator{Channels: c, Length: l, Capacity: k}
+	}
 	var c int
 	switch prog.Draw(4) {
 	case 0:
@@ -72,6 +86,45 @@ func drawClock(sim *simrt.Sim) {
 		sim.ClockJumpNum = 32
 		sim.ClockJumpMax = []time.Duration{time.Second, time.Minute, 24 * time.Hour}[sim.Sched.Draw(3)]
 	}
+}
+
+// isHuge says whether an allocator is one of the rare huge shapes (the
+// harnesses then keep histories short).
+func isHuge(a signal.Allocator) bool { return a.Channels*a.Capacity >= 65536 }
+
+// secondAllocator draws the shape of the pool that lives next to the observed
+// one: same element type and a related shape (state a modified library keeps
+// per package, per type or per size must not leak between pools).
+func secondAllocator(prog *simrt.Stream, a signal.Allocator, b Bounds) signal.Allocator {
+	var o signal.Allocator
+	switch prog.Draw(3) {
+	case 0: // same total capacity, channels and frames swapped
+		o = signal.Allocator{Channels: a.Capacity, Capacity: a.Channels}
+		if o.Channels > 4*b.MaxC {
+			o = signal.Allocator{Channels: 1, Capacity: a.Channels * a.Capacity}
+		}
+		o.Length = prog.Draw(o.Capacity + 1)
+		if isHuge(a) {
+			o.Length = prog.Draw(2)
+		}
+	case 1: // same channels and capacity, another length
+		o = a
+		if a.Length > 0 && prog.Draw(2) == 0 {
+			o.Length = a.Length - 1
+		} else if a.Length < a.Capacity {
+			o.Length = a.Length + 1
+		} else {
+			o.Length = 0
+		}
+	default: // same capacity in frames, one channel more or less
+		o = a
+		if a.Channels > 1 && prog.Draw(2) == 0 {
+			o.Channels--
+		} else {
+			o.Channels++
+		}
+	}
+	return o
 }
 
 // freshCheck is oracle 1 of C10/C11: b must be observationally equal to
@@ -186,7 +239,10 @@ func (h *H[T]) applyUse(cur **signal.Buffer[T], op useOp, peer *signal.Buffer[T]
 		d("SetSample(%d)", i)
 		b.SetSample(i, nonzero[T](op.b))
 	case uWrite:
-		n := int(op.a) % (b.Len() + 3)
+		n := int((op.a<<16 ^ op.b) % uint64(b.Len()+3))
+		if op.c%2 == 0 {
+			n = b.Len()
+		}
 		d("Write(%d values)", n)
 		vals := make([]T, n)
 		for i := range vals {
